@@ -251,7 +251,8 @@ def getTableComplete (fams : List Family) (rows : List GetRow) : Bool :=
 
 /-- One recorded constructor call. `given` = parameters passed as plain values, `fixed` = passed
 as `f_<p>`; `order`: 0 = `Dist(**values, **fixed)`, 1 = `Dist(**fixed, **values)`,
-2 = `Dist(*values, **fixed)` (then `given` is a prefix). `params` = the values of
+2 = `Dist(*values, **fixed)` (then `given` is a prefix), 3 = `Dist(**values, **fixed, f_<q>=None for every free q)`
+(a free parameter explicitly declared not fixed). `params` = the values of
 `.parameters` afterwards, `fattrs` = the `f_<p>` attributes (`none` = Python `None`). -/
 structure CtorRow where
   fam : Nat
@@ -281,7 +282,7 @@ def ctorTableComplete (fams : List Family) (rows : List CtorRow) : Bool :=
     let subs := subsetsBelow f.params.length
     let full := List.range f.params.length
     subs.all fun F =>
-      ([0, 1, 2].all fun o =>
+      ([0, 1, 2, 3].all fun o =>
         rs.any fun r => r.fixed == F && r.given == full && r.order == o) &&
       (rs.any fun r => r.fixed == F && r.given == [] && r.order == 0)
 
